@@ -128,7 +128,7 @@ harnesses! {
     #[kani::unwind(7)] fn c08_graham4_g2_x3(s) { graham4(s, 2, Some(1)) }
     #[kani::unwind(7)] fn c08_graham4_g2_x4(s) { graham4(s, 2, Some(2)) }
     #[kani::unwind(7)] fn c08_sanity_must_fail(s) {
-        trivial3(s, 1, 1);
+        graham4_at(s, 1, Some(0), Some(0));
         assert!(false, "sanity twin reached its end");
     }
 }
